@@ -257,6 +257,11 @@ pub fn spawn(bin: &Path, l: &Launch) -> Result<Proc, String> {
     for (k, v) in &l.env {
         cmd.env(k, v);
     }
+    if !l.env.iter().any(|(k, _)| k == "TZ") {
+        // ... and in whatever time zone the host happens to be
+        let port = l.connect.first().map(|a| a.port()).unwrap_or(0);
+        cmd.env("TZ", ["UTC0", "LINT-14", "AOE12", "IST-5:30", "Pacific/Kiritimati"][(port / 4 % 5) as usize]);
+    }
     if !l.env.iter().any(|(k, _)| k == "RUST_LOG") {
         // operators run with logging on; which level must not matter (output goes nowhere)
         let port = l.connect.first().map(|a| a.port()).unwrap_or(0);
@@ -280,10 +285,10 @@ pub fn spawn(bin: &Path, l: &Launch) -> Result<Proc, String> {
         if ready.iter().all(|r| *r) {
             return Ok(Proc { child, addrs: l.connect.clone() });
         }
-        if t0.elapsed() > Duration::from_secs(10) {
+        if t0.elapsed() > Duration::from_secs(40) {
             let _ = child.kill();
             let _ = child.wait();
-            return Err(format!("not all listen addresses accept connections after 10 s: {:?} ready {:?}; arguments {:?} environment {:?}", l.connect, ready, l.args, l.env));
+            return Err(format!("not all listen addresses accept connections after 40 s: {:?} ready {:?}; arguments {:?} environment {:?}", l.connect, ready, l.args, l.env));
         }
         std::thread::sleep(Duration::from_millis(15));
     }
@@ -317,6 +322,15 @@ fn start(bin: &Path, bc: &BCase, dir: &Path, clients: &[Uuid]) -> Result<Proc, F
             }
         }
     }
+    // ... and, failing that, the plainest launch there is: one address, everything by flag, the
+    // data directory a fresh one named plainly next to the configured one
+    let plainest = BCase { hosts: vec![0], listen_style: ListStyle::Repeated, data_dir_src: Src::Flag, allow_style: ListStyle::Repeated, dir_form: 0, ..bc.clone() };
+    let probe_dir = dir.with_file_name("plain-probe");
+    if let Some(l) = plan_launch(&plainest, &probe_dir, clients) {
+        if spawn(bin, &l).is_ok() {
+            return v(format!("the server does not come up with this configuration (data directory {:?}, named in form {}), but does with a plainly named fresh directory and a single 127.0.0.1 address: {last}", dir, bc.dir_form % 4));
+        }
+    }
     Err(Fail::Inconclusive(format!("cannot start the server: {last}")))
 }
 
@@ -336,12 +350,12 @@ fn ext_driver_ka(dir: &Path, cfg: &Cfg, addrs: Vec<SocketAddr>, keep_alive: bool
         turn += 1;
         if keep_alive {
             let k = (turn - 1) % conns.len();
-            return match conns[k].call(r, Duration::from_secs(20)) {
+            return match conns[k].call(r, Duration::from_secs(120)) {
                 Ok(resp) => resp,
                 Err(SockError::NoResponse(m)) | Err(SockError::Io(m)) => HttpResp { status: 0, crashed: Some(format!("no response from {a} on a persistent connection: {m}")), ..Default::default() },
             };
         }
-        match exchange(a, r, if turn % 3 == 0 { Encoding::Chunked } else { Encoding::ContentLength }, &[], Duration::from_secs(20)) {
+        match exchange(a, r, if turn % 3 == 0 { Encoding::Chunked } else { Encoding::ContentLength }, &[], Duration::from_secs(120)) {
             Ok(resp) => resp,
             Err(SockError::NoResponse(m)) | Err(SockError::Io(m)) => HttpResp { status: 0, crashed: Some(format!("no response from {a}: {m}")), ..Default::default() },
         }
@@ -463,7 +477,7 @@ pub fn check(bc: &BCase, st: &mut Stats) -> CheckResult {
     }
     // every listen address serves the same state
     for a in &proc.addrs {
-        let r = exchange(*a, &HttpReq { method: "GET".into(), path: "/".into(), headers: vec![], chunks: vec![], stalls: vec![] }, Encoding::ContentLength, &[], Duration::from_secs(10));
+        let r = exchange(*a, &HttpReq { method: "GET".into(), path: "/".into(), headers: vec![], chunks: vec![], stalls: vec![] }, Encoding::ContentLength, &[], Duration::from_secs(60));
         match r {
             Ok(r) if r.status == 200 => {}
             o => return v(format!("{what}: listen address {a} does not serve: {:?}", o.map(|r| r.status).map_err(|e| format!("{e:?}")))),
